@@ -4,9 +4,11 @@
    harness log, racing ones included.  Same pattern as srv/SrvMonitors.v and srv/SrvMonitors2.v.
 
    (a) [mon_cancel_cause] : (C07, first sentence) a handler observes its context as cancelled ([OStart p true] or
-                            [OGate p true]) only if the environment contains a cause: a stop cause (a [LCallStop], or a
-                            fed Recv error [LFeed (FErr _)]: then the monitor says nothing more), or a
-                            [LCallCancel _ id] whose id is the (non-empty) id of a fed member with params p.
+                            [OGate p true]) only if the environment contains a cause: a [LCallCancel _ id] whose id is
+                            the (non-empty) id of a fed member with params p, or a stop cause (a [LCallStop], or a
+                            fed Recv error [LFeed (FErr _)]).  A report that precedes the first [OClose] of the
+                            observation sequence (order of observations only) needs the first kind: stopLocked closes
+                            the channel before it cancels any context.
                             The labels that can set a task's cancelled flag in the model are LRelCancel (needs a pending
                             OpCancel, i.e. an LCallCancel), LRelStop (needs an LCallStop), LRelRead holding a Recv error
                             (needs a fed error, or the closing error the model appends when it stops - which needs an
@@ -48,8 +50,19 @@ Definition cancelled_of (o : obs) : list bytes :=
   end.
 Definition cancelled_params (os : list obs) : list bytes := flat_map cancelled_of os.
 
+(* the observations before the first close of the channel (the first thing stopLocked does; it cancels the request
+   contexts only afterwards) *)
+Fixpoint before_close (os : list obs) : list obs :=
+  match os with
+  | [] => []
+  | OClose :: _ => []
+  | o :: r => o :: before_close r
+  end.
+
+(* before the first close only CancelRequest is a cause; anywhere, a stop cause in the environment is one too *)
 Definition mon_cancel_cause (env : list label) (os : list obs) : bool :=
-  stop_in env || forallb (cancel_named env) (cancelled_params os).
+  forallb (cancel_named env) (cancelled_params (before_close os)) &&
+  (stop_in env || forallb (cancel_named env) (cancelled_params os)).
 
 (** * (b) what WaitStatus reports has its cause in the environment; it returns at most once per call *)
 Definition is_callstop (l : label) : bool := match l with LCallStop _ => true | _ => false end.
